@@ -1011,21 +1011,40 @@ impl Views {
       if let Some(e) = rows.entries.first() {
         let id = e.id;
         let kids = rows.children.get(&e.seq).map(|l| l.len()).unwrap_or(0);
-        for (op, path, len) in [
-          ("v.children", format!("/r/children/{id}/{OVERFLOW_PAGE}"), kids),
-          ("v.rparents", format!("/r/parents/{id}/{OVERFLOW_PAGE}"), e.parents.len()),
+        // `/r/parents/<id>/<page>` additionally converts the page to u32 (500 once the product no
+        // longer panics): compared with the model only
+        {
+          let r = srv.get(&format!("/r/parents/{id}/{OVERFLOW_PAGE}"));
+          out.emit(
+            &format!("v.rparents {id} {OVERFLOW_PAGE}"),
+            &canon::<api::Inscriptions>(&r, |v| format!("items={} more={} page={}", join(&v.ids), v.more, v.page_index)),
+          );
+        }
+        for (op, label, path, len) in [
+          ("v.children", "v.children", format!("/r/children/{id}/{OVERFLOW_PAGE}"), kids),
+          ("v.rparentins", "v.rparents", format!("/r/parents/{id}/inscriptions/{OVERFLOW_PAGE}"), e.parents.len()),
         ] {
           let r = srv.get(&path);
           let status = match &r {
             R::Ok(b) => match serde_json::from_str::<serde_json::Value>(b) {
-              Ok(v) => format!("200:{}:{}", v["ids"].as_array().map(|a| a.len()).unwrap_or(usize::MAX), v["more"]),
+              Ok(v) => {
+                let items = if v["ids"].is_array() { &v["ids"] } else { &v["parents"] };
+                format!("200:{}:{}", items.as_array().map(|a| a.len()).unwrap_or(usize::MAX), v["more"])
+              }
               Err(_) => "unparsed".into(),
             },
             o => other(o),
           };
-          out.emit(&format!("{op} {id} {OVERFLOW_PAGE}"), &match &r { R::Ok(_) => "ok".into(), o => other(o) });
+          let line = if op == "v.children" {
+            canon::<api::Children>(&r, |v| format!("items={} more={} page={}", join(&v.ids), v.more, v.page))
+          } else {
+            canon::<api::ParentInscriptions>(&r, |v| {
+              format!("items={} more={} page={}", join(&v.parents.iter().map(rel).collect::<Vec<_>>()), v.more, v.page)
+            })
+          };
+          out.emit(&format!("{op} {id} {OVERFLOW_PAGE}"), &line);
           // a page beyond the end is an empty page
-          out.emit(&format!("v.oracle.beyond {op} {len} {OVERFLOW_PAGE} {status}"), "true");
+          out.emit(&format!("v.oracle.beyond {label} {len} {OVERFLOW_PAGE} {status}"), "true");
           dist.hit("overflow_page_probed");
         }
       }
